@@ -10,9 +10,10 @@ Record trncase := {
   tn_flags : list (str * N);
   tn_bigrams : list (str * str);                 (* BIGRAM templates: left part, right part *)
   tn_rewrite_def : str;
-  tn_words : list (list str * N * N);            (* seed lexicon rows: feature columns, emitted left id, right id *)
-  tn_left_rows : list (list str);                (* bigram.left: row i = id i+1 *)
-  tn_right_rows : list (list str)
+  (* views (in-memory model; model read back from write_model), each after the user lexicon was read:
+     words (lexicon rows, unk.def rows, 0,0,0 user rows) as feature columns + emitted left / right id,
+     then bigram.left and bigram.right (row i = id i+1) *)
+  tn_views : list (list (list str * N * N * N) * list (list str) * list (list str))
 }.
 
 Definition has_prefix (p : str) (f : str * N) : bool := starts_with p (fst f).
@@ -47,24 +48,34 @@ Definition tuples (c : trncase) (rs : rule_sets) (feats : list str) : list (opti
 Definition listed_ok (row : list str) (exp : list (option str)) : bool :=
   forallb2 (fun cell e => str_eqb cell STAR || match e with Some s => str_eqb cell s | None => false end) row exp.
 
-Definition c18_oracle (c : trncase) : bool :=
+Definition wview := (list (list str * N * N * N) * list (list str) * list (list str))%type.
+
+(** [strict]: judge the sharing of ids only among seed rows (lexicon, unk.def); otherwise also for
+    the 0,0,0 user rows read after training (known finding K6) *)
+Definition view_ok (strict_only_seed : bool) (c : trncase) (rs : rule_sets) (v : wview) : bool :=
+  let '(words, left_rows, right_rows) := v in
+  let ws := map (fun w => let '(f, l, r, k) := w in (tuples c rs f, l, r, k)) words in
+  forallb (fun a => forallb (fun b =>
+    let '(ta, la, ra, ka) := a in let '(tb, lb, rb, kb) := b in
+    (strict_only_seed && ((ka =? 2) || (kb =? 2)))
+    || ((negb (tuple_eqb (snd ta) (snd tb)) || (la =? lb)) && (negb (tuple_eqb (fst ta) (fst tb)) || (ra =? rb)))) ws) ws
+  && forallb (fun a => let '(ta, la, ra, _) := a in
+       (1 <=? la) && (1 <=? ra)
+       && listed_ok (nth (N.to_nat la - 1) left_rows []) (snd ta)
+       && listed_ok (nth (N.to_nat ra - 1) right_rows []) (fst ta)) ws.
+
+Definition c18_oracle_gen (seed_only : bool) (c : trncase) : bool :=
   match parse_rewrite_def (tn_rewrite_def c) with
-  | Ok rs =>
-      let ws := map (fun w => let '(f, l, r) := w in (tuples c rs f, l, r)) (tn_words c) in
-      (* equal expanded right-context tuples => equal left ids; equal left-context tuples => equal right ids *)
-      forallb (fun a => forallb (fun b =>
-        let '(ta, la, ra) := a in let '(tb, lb, rb) := b in
-        (negb (tuple_eqb (snd ta) (snd tb)) || (la =? lb)) && (negb (tuple_eqb (fst ta) (fst tb)) || (ra =? rb))) ws) ws
-      (* the tuple listed for the id is the expansion of every word carrying it *)
-      && forallb (fun a => let '(ta, la, ra) := a in
-           (1 <=? la) && (1 <=? ra)
-           && listed_ok (nth (N.to_nat la - 1) (tn_left_rows c) []) (snd ta)
-           && listed_ok (nth (N.to_nat ra - 1) (tn_right_rows c) []) (fst ta)) ws
+  | Ok rs => forallb (view_ok seed_only c rs) (tn_views c)
   | _ => false
   end.
+Definition c18_oracle := c18_oracle_gen false.
+(** known finding K6: the only failure is a 0,0,0 user row whose tuple coincides with another row's but whose id differs *)
+Definition c18_known (c : trncase) : bool := negb (c18_oracle_gen false c) && c18_oracle_gen true c.
 
 Definition c18_nontrivial (c : trncase) : bool :=
-  Nat.leb 2 (length (nodup N.eq_dec (map (fun w => snd (fst w)) (tn_words c))))
-  && existsb (fun row => existsb (fun cell => negb (str_eqb cell STAR)) row) (tn_left_rows c).
+  existsb (fun v : wview => let '(words, left_rows, _) := v in
+     Nat.leb 2 (length (nodup N.eq_dec (map (fun w => snd (fst (fst w))) words)))
+     && existsb (fun row => existsb (fun cell => negb (str_eqb cell STAR)) row) left_rows) (tn_views c).
 
-Definition c18_report := report (fun _ => true) c18_oracle (fun _ => false) c18_nontrivial.
+Definition c18_report := report (fun _ => true) c18_oracle c18_known c18_nontrivial.
